@@ -460,6 +460,57 @@ def check_shared_table(order, embed):
     return fails[:3]
 
 
+class Census(Process):
+    """only flags the agents' mass for emission"""
+    defaults = {'timestep': 1.0}
+
+    def ports_schema(self):
+        return {'agents': {'*': {'mass': {'_emit': True}}}}
+
+    def next_update(self, timestep, states):
+        return {}
+
+
+class Growth(Process):
+    defaults = {'timestep': 1.0}
+
+    def __init__(self, parameters=None):
+        super().__init__(parameters)
+        self.k = 0
+
+    def ports_schema(self):
+        return {'agents': {'*': {'mass': {'_default': 1.0, '_updater': 'accumulate'}, 'aux': {'_default': 0}}}}
+
+    def next_update(self, timestep, states):
+        self.k += 1
+        up = {a: {'mass': 1.0} for a in states['agents']}
+        if self.k == 2:
+            up['_add'] = [{'key': 'b', 'state': {}}]
+        return {'agents': up}
+
+
+def check_two_declarers(order):
+    """two processes declare the glob schema of one store: one only sets the emit flag of a variable, the other its default and updater
+    (in either listing order): every agent in the hierarchy -- also one added later -- is in the rows with that variable"""
+    procs = {'census': Census(), 'growth': Growth()}
+    try:
+        eng = Engine(processes={k: procs[k] for k in order}, topology={k: {'agents': ('agents',)} for k in order},
+                     initial_state={'agents': {'a': {}}}, display_info=False, progress_bar=False)
+        eng.update(4)
+        data = eng.emitter.get_data()
+        held = eng.state.get_value()['agents']
+    except Exception as e:
+        return ['two glob declarers (%s) raised %s: %s' % (order, type(e).__name__, str(e)[:160])]
+    fails = []
+    last = data[max(data)].get('agents', {})
+    want = {a: {'mass': v['mass']} for a, v in held.items()}
+    if last != want:
+        fails.append('listing %s: the last row holds agents %r; the hierarchy holds %r and `mass` is flagged for every agent' % (order, last, want))
+    if data[0].get('agents') != {'a': {'mass': 1.0}}:
+        fails.append('listing %s: the initial row holds agents %r, expected {a: {mass: 1.0}}' % (order, data[0].get('agents')))
+    return fails
+
+
 SHARED_CASES = [(order, embed) for order in (('outer', 'inner'), ('inner', 'outer')) for embed in (['agents', '0'], ['cell'])]
 
 
@@ -470,7 +521,8 @@ def main():
     a = ap.parse_args()
     if a.replay:
         scn = json.load(open(a.replay))['scenario']
-        fails = check_shared_table(tuple(scn['shared'][0]), scn['shared'][1]) if 'shared' in scn else \
+        fails = check_two_declarers(tuple(scn['declarers'])) if 'declarers' in scn else \
+            check_shared_table(tuple(scn['shared'][0]), scn['shared'][1]) if 'shared' in scn else \
             check_object_rows(scn['object_kinds']) if 'object_kinds' in scn else check(scn)
         L.emit_result({'status': 'reproduced' if fails else 'not-reproduced', 'failed': fails})
         return
@@ -500,6 +552,15 @@ def main():
         if fails:
             rp = L.write_replay(a.out, 'C12', 'objects%d' % oi, {'object_kinds': kinds}, fails, extra={'driver': 'bounded.c12'})
             failures.append({'id': 'C12.bounded.objects#%d: %s' % (oi, fails[0][:260]), 'replay': rp})
+    for order in (('census', 'growth'), ('growth', 'census')):
+        if len(failures) >= 3:
+            break
+        evaluations += 1
+        distinct.add('declarers-' + order[0])
+        fails = check_two_declarers(order)
+        if fails:
+            rp = L.write_replay(a.out, 'C12', 'declarers-' + order[0], {'declarers': list(order)}, fails, extra={'driver': 'bounded.c12'})
+            failures.append({'id': 'C12.bounded.two-declarers[%s first]: %s' % (order[0], fails[0][:260]), 'replay': rp})
     for si, (order, embed) in enumerate(SHARED_CASES):
         if len(failures) >= 3:
             break
